@@ -65,10 +65,31 @@ fn opt(n: Option<usize>) -> String {
     n.map(|n| n.to_string()).unwrap_or_else(|| "-".into())
 }
 
+/// `101:E0,102:S120` (`-` = no event)
+fn parse_evs(t: &str) -> Option<Vec<(i32, ProcessState)>> {
+    if t == "-" {
+        return Some(vec![]);
+    }
+    t.split(',')
+        .map(|e| {
+            let (p, st) = e.split_once(':')?;
+            Some((p.parse().ok()?, parse_state(st)?))
+        })
+        .collect()
+}
+
 fn pids_mentioned(ops: &[&str]) -> Vec<i32> {
     let mut v: Vec<i32> = vec![];
     for op in ops {
         let w: Vec<&str> = op.split_whitespace().collect();
+        if matches!(w.first(), Some(&"sync") | Some(&"waitb")) {
+            for (p, _) in w.get(1).and_then(|e| parse_evs(e)).unwrap_or_default() {
+                if !v.contains(&p) {
+                    v.push(p);
+                }
+            }
+            continue;
+        }
         if matches!(
             w.first(),
             Some(&"ins") | Some(&"upd") | Some(&"async") | Some(&"job") | Some(&"amp") | Some(&"hjs")
@@ -950,6 +971,228 @@ fn run_case(case: &str) -> (String, String, String) {
                 }
                 show_ran(&ran)
             }
+            ["sync", evs] => {
+                // `Env::update_all_subshell_statuses`: every job that is alive has a child process in the
+                // recorded state; the events change the states of those processes; `wait(-1)` then hands
+                // the changes out in the order of the process IDs
+                let Some(evs) = parse_evs(evs) else {
+                    return ("bad-case".into(), "-".into(), String::new());
+                };
+                if !evs.windows(2).all(|p| p[0].0 < p[1].0) {
+                    return ("bad-case".into(), "-".into(), String::new());
+                }
+                let wd = world.get_or_insert_with(World::new);
+                let before_list = l.clone();
+                for (_, j) in l.iter() {
+                    if j.state.is_alive() {
+                        wd.add_process(j.pid, wd.shell_pid, j.state);
+                    }
+                }
+                for (p, st) in &evs {
+                    let mut sys = wd.state.borrow_mut();
+                    if let Some(pr) = sys.processes.get_mut(&Pid(*p)) {
+                        if pr.state().is_alive() && pr.state() != *st {
+                            let _ = pr.set_state(*st);
+                        }
+                    }
+                }
+                wd.env.jobs = std::mem::take(&mut l);
+                wd.env.update_all_subshell_statuses();
+                l = std::mem::take(&mut wd.env.jobs);
+                wd.clear_processes();
+                // nothing is removed or added; a job is in the recorded state or in a state an event reports for it
+                for (i, j) in before_list.iter() {
+                    let ok = l
+                        .get(i)
+                        .map(|n| n.pid == j.pid && (n.state == j.state || evs.contains(&(j.pid.0, n.state))))
+                        .unwrap_or(false);
+                    if !ok {
+                        doc = Some(format!("sync-table:{i}"));
+                    }
+                }
+                if l.len() != before_list.len() {
+                    doc = Some("sync-table:len".into());
+                }
+                "-".into()
+            }
+            ["prompt", m, i] => {
+                // `Reporter::next_line` (input/reporter.rs): the report an interactive shell prints before it
+                // reads a line
+                let (Some(m), Some(inter)) = (parse_bool(m), parse_bool(i)) else {
+                    return ("bad-case".into(), "-".into(), String::new());
+                };
+                let wd = world.get_or_insert_with(World::new);
+                let before_list = l.clone();
+                let (cur, prev) = (l.current_job(), l.previous_job());
+                wd.env.options.set(Monitor, if m { On } else { Off });
+                wd.env.options.set(Interactive, if inter { On } else { Off });
+                wd.env.jobs = std::mem::take(&mut l);
+                let line = wd.drive(&mut |_| (), |env| {
+                    Box::pin(async move {
+                        use yash_env::input::Input as _;
+                        let cell = RefCell::new(env);
+                        let mut reporter =
+                            yash_env::input::Reporter::new(yash_env::input::Memory::new("echo\n"), &cell);
+                        reporter.next_line(&yash_env::input::Context::default()).await
+                    })
+                });
+                let (_, stderr) = wd.take_output();
+                wd.env.options.set(Interactive, Off);
+                l = std::mem::take(&mut wd.env.jobs);
+                if !matches!(line, Some(Ok(ref t)) if t == "echo\n") {
+                    doc = Some("prompt-input".into());
+                }
+                let on = m && inter;
+                // nothing is removed; with the report on, only `state_changed` is cleared
+                for (i, j) in before_list.iter() {
+                    let mut want = j.clone();
+                    if on {
+                        want.state_changed = false;
+                    }
+                    if l.get(i) != Some(&want) {
+                        doc = Some(format!("prompt-table:{i}"));
+                    }
+                }
+                if l.len() != before_list.len() {
+                    doc = Some("prompt-table:len".into());
+                }
+                // exactly the jobs whose state had changed are reported, with the right markers
+                let heads = report_heads(&stderr);
+                let want: Vec<usize> = if on {
+                    before_list.iter().filter(|(_, j)| j.state_changed).map(|(i, _)| i).collect()
+                } else {
+                    vec![]
+                };
+                if heads.iter().map(|(n, _)| n.wrapping_sub(1)).collect::<Vec<_>>() != want {
+                    doc = Some("prompt-jobs".into());
+                }
+                for (n, mk) in heads {
+                    let i = n.wrapping_sub(1);
+                    if (mk == '+') != (cur == Some(i)) || (mk == '-') != (prev == Some(i)) || !"+- ".contains(mk) {
+                        doc = Some(format!("marker:[{n}]{mk}"));
+                    }
+                }
+                enc_str(&stderr)
+            }
+            ["waitb", evs, args @ ..] => {
+                // `wait` while the system reports state changes: every job that is alive has a child process
+                // in the recorded state; whenever the shell blocks, the next event that can happen (its
+                // process is alive and in another state) happens and SIGCHLD is raised; when no event is
+                // left, no child is left either
+                let (Some(evs), Some(fields)) = (parse_evs(evs), parse_args(args)) else {
+                    return ("bad-case".into(), "-".into(), String::new());
+                };
+                let wd = world.get_or_insert_with(World::new);
+                let before_list = l.clone();
+                for (_, j) in l.iter() {
+                    if j.state.is_alive() {
+                        wd.add_process(j.pid, wd.shell_pid, j.state);
+                    }
+                }
+                wd.env.jobs = std::mem::take(&mut l);
+                let shell = wd.shell_pid;
+                let mut queue: VecDeque<(i32, ProcessState)> = evs.iter().copied().collect();
+                let mut hook = |state: &Rc<RefCell<SystemState>>| {
+                    let mut sys = state.borrow_mut();
+                    // the previous change has not been collected yet
+                    if sys.processes.iter().any(|(pid, p)| *pid != shell && p.state_has_changed()) {
+                        return;
+                    }
+                    loop {
+                        match queue.pop_front() {
+                            None => {
+                                sys.processes.retain(|pid, _| *pid == shell);
+                                break;
+                            }
+                            Some((p, st)) => {
+                                if let Some(pr) = sys.processes.get_mut(&Pid(p)) {
+                                    if pr.state().is_alive() && pr.state() != st {
+                                        let _ = pr.set_state(st);
+                                        break;
+                                    }
+                                }
+                            }
+                        }
+                    }
+                    if let Some(sh) = sys.processes.get_mut(&shell) {
+                        let _ = sh.raise_signal(yash_env::system::r#virtual::SIGCHLD);
+                    }
+                };
+                let ran = wd.run_builtin(&mut hook, |env| Box::pin(yash_builtin::wait::main(env, fields)));
+                l = std::mem::take(&mut wd.env.jobs);
+                for (i, j) in before_list.iter() {
+                    let ok = match l.get(i) {
+                        Some(n) => n.pid == j.pid && (n.state == j.state || evs.contains(&(j.pid.0, n.state))),
+                        None => {
+                            !j.is_owned
+                                || !j.state.is_alive()
+                                || evs.iter().any(|(p, st)| *p == j.pid.0 && !st.is_alive())
+                        }
+                    };
+                    if !ok {
+                        doc = Some(format!("wait-removal:{i}"));
+                    }
+                }
+                if l.iter().any(|(i, _)| before_list.get(i).is_none()) {
+                    doc = Some("wait-new-job".into());
+                }
+                show_ran(&ran)
+            }
+            ["kres", a] => {
+                // `kill::send::resolve_target`: the argument of kill(2) for one operand of the `kill` built-in
+                let Some(fields) = parse_args(&[a]) else {
+                    return ("bad-case".into(), "-".into(), String::new());
+                };
+                use yash_builtin::kill::send::{Error as KillError, resolve_target};
+                let target = fields[0].value.clone();
+                let r = resolve_target(&l, &target);
+                if target.starts_with('%') {
+                    // "Signaling jobs": the process group of the job the job ID designates; a job that is not
+                    // owned, not job-controlled or finished is refused
+                    let designated = doc_simple(&target, l.current_job(), l.previous_job(), &snapshot(&l))
+                        .flatten()
+                        .and_then(|i| l.get(i));
+                    let bad = match (&r, designated) {
+                        (Ok(pid), Some(j)) => {
+                            !(pid.0 == -j.pid.0 && j.state.is_alive() && j.is_owned && j.job_controlled)
+                        }
+                        (Ok(_), None) => true,
+                        (Err(KillError::JobId(_)), d) => d.is_some(),
+                        (Err(_), Some(j)) => j.state.is_alive() && j.is_owned && j.job_controlled,
+                        (Err(_), None) => true,
+                    };
+                    if bad {
+                        doc = Some("kill-designation".into());
+                    }
+                }
+                match r {
+                    Ok(pid) => format!("pid:{}", pid.0),
+                    Err(KillError::JobId(FindError::NotFound)) => "err:nf".into(),
+                    Err(KillError::JobId(FindError::Ambiguous)) => "err:amb".into(),
+                    Err(KillError::Unowned) => "err:unowned".into(),
+                    Err(KillError::Unmonitored) => "err:unmon".into(),
+                    Err(KillError::Finished) => "err:finished".into(),
+                    Err(KillError::ProcessId(_)) => "err:badpid".into(),
+                    Err(_) => "err:other".into(),
+                }
+            }
+            ["bang"] => {
+                // the expansion of `$!` (`${!-unset}`: the value, or `unset`)
+                let wd = world.get_or_insert_with(World::new);
+                wd.env.jobs = std::mem::take(&mut l);
+                let word: yash_syntax::syntax::Word = "${!-unset}".parse().unwrap();
+                let r = wd.drive(&mut |_| (), |env| {
+                    Box::pin(async move { yash_semantics::expansion::expand_word(env, &word).await.map(|f| f.0.value).ok() })
+                });
+                l = std::mem::take(&mut wd.env.jobs);
+                let v = r.flatten().unwrap_or_else(|| "ERROR".into());
+                // `$!` is the process ID `set_last_async_pid` recorded, unset while there is none
+                let want = if l.last_async_pid().0 == 0 { "unset".to_string() } else { l.last_async_pid().0.to_string() };
+                if v != want {
+                    doc = Some("bang-value".into());
+                }
+                v
+            }
             ["ins", p, st] => {
                 let pid = Pid(p.parse().unwrap());
                 if let Some(i) = l.find_by_pid(pid) {
@@ -1133,6 +1376,20 @@ fn alphabet2() -> Vec<String> {
         "wait %% %-",
         "wait 102",
         "disown",
+        // extension round: status changes reported by the system, the prompt report, `kill %job`, `$!`
+        "sync 101:E0",
+        "sync 101:S120,102:R",
+        "sync 102:K9,103:S121",
+        "prompt 1 1",
+        "prompt 0 1",
+        "waitb 101:E3 %1",
+        "waitb 102:S120,102:R,102:E0 %2",
+        "waitb 101:E1,102:E2,103:K9",
+        "waitb 103:E5,101:S120 %1 %3",
+        "kres %1",
+        "kres %-",
+        "kres %ab",
+        "bang",
     ]
     .iter()
     .map(|s| s.to_string())
@@ -1212,7 +1469,35 @@ fn random_mixed_op(r: &mut Rng, npids: usize) -> String {
             }
             format!("wait {a}").trim().to_string()
         }
-        17 => format!("wres {}", r.pick(&OPERANDS)),
+        17 => match r.below(3) {
+            0 => format!("wres {}", r.pick(&OPERANDS)),
+            1 => format!("kres {}", if r.chance(4, 5) { r.pick(&OPERANDS) } else { r.pick(&["101", "-102", "0", "-0", "+5", "x", "''", "2147483648", "-2147483648", "-2147483649"]) }),
+            _ => "bang".to_string(),
+        },
+        18 if r.chance(1, 2) => match r.below(4) {
+            0 => {
+                // pending status changes, in the order of the process IDs
+                let mut evs = vec![];
+                for q in 0..npids {
+                    if r.chance(1, 2) {
+                        evs.push(format!("{}:{}", 101 + q, r.pick(&["R", "S120", "S121", "E0", "E3", "K9", "C3", "K2"])));
+                    }
+                }
+                format!("sync {}", if evs.is_empty() { "-".to_string() } else { evs.join(",") })
+            }
+            1 => format!("prompt {} {}", if r.chance(1, 6) { 0 } else { 1 }, if r.chance(1, 6) { 0 } else { 1 }),
+            _ => {
+                let n = r.below(6);
+                let evs: Vec<String> = (0..n)
+                    .map(|_| format!("{}:{}", 101 + r.below(npids), r.pick(&["R", "S120", "E0", "E3", "E7", "K9", "C3", "S121"])))
+                    .collect();
+                let mut a = random_args(r, &["-x"], 20, 3);
+                if r.chance(1, 5) {
+                    a = format!("{a} {}", r.pick(&["101", "102", "103", "0"]));
+                }
+                format!("waitb {} {a}", if evs.is_empty() { "-".to_string() } else { evs.join(",") }).trim().to_string()
+            }
+        },
         18 => match r.below(6) {
             0 | 1 => format!(
                 "hjs {p} {} {} {}",
@@ -1310,6 +1595,19 @@ fn main() {
                 queue.push_back((case, nkey, d + 1));
             }
         }
+    }
+    // every signal number of the virtual system (and its neighbours) through the report format:
+    // `Stopped(SIG…)`, `Killed(SIG…)`, `Killed(SIG…: core dumped)` in `jobs`, `jobs -l` and the prompt report
+    let sweep: Vec<i32> = (1..=131).chain(198..=212).collect();
+    for (k, n) in sweep.iter().enumerate() {
+        if k % o.shard.1 != o.shard.0 {
+            continue;
+        }
+        let case = format!(
+            "job 101 S{n} 1 a; job 102 K{n} 1 b; job 103 C{n} 0 abc; prompt 1 1; jobs -l; job 102 R 1 b; upd 102 K{n}; jobs"
+        );
+        let (obs, oracle, _) = run_guarded(&case);
+        emit_case(&case, &obs, &oracle);
     }
     // random histories mixing the API with the built-ins
     let mut rng = Rng::new(o.seed ^ 0xC12B);
